@@ -1,7 +1,6 @@
 /- helper lemmas for C13: insertion sort yields a sorted permutation; sorted permutations are unique
 when equal scores imply equal elements -/
 import SemaModel.C13.Model
-import SemaModel.Generated.FactsC13
 namespace Sema.C13
 open Sema List
 
@@ -187,20 +186,8 @@ theorem take_insertBy_subset (f : α → Nat) (x : α) (l : List α) (k : Nat) :
           · left; exact h
           · right; rw [take_succ_cons]; exact mem_cons_of_mem _ h
 
-/-! ### T2 pins: syntactic facts of the source, regenerated on every run by `tools/facts_c13`.
-The model hashes `key ++ server`, sorts ascending, clamps `k`, and every call site of package
-`cluster` asks for `RendezvousHash(<user id | shard id>, c.Servers, 1)[0]`, i.e. `owner`. -/
-namespace Pins
-open Sema.Gen.FactsC13
-
-example : hashImport = "github.com/cespare/xxhash" := by decide
-example : hashOperands = ["key", "server"] := by decide
-example : sortDirection = "asc" := by decide
-example : clamp = "topK > len(servers) => topK = len(servers)" := by decide
-example : calls.all (fun c => c.servers == "c.Servers" && c.k == "1" && c.use == "[0]") = true := by decide
-example : calls.all (fun c => ["collection.UserId", "col.UserId", "userId", "shardId", "sId"].contains c.key) = true := by decide
-example : calls.length ≥ 1 := by decide
-
-end Pins
+/-! The T2 pins (syntactic facts of the source, regenerated on every run by `tools/facts_c13`) are in
+`Pins.lean`, imported by `Props.lean`, so that the tie theorems of `Tie.lean` — which need the sorting
+lemmas above — are checked on their own when a pin breaks. -/
 
 end Sema.C13
